@@ -278,6 +278,8 @@ def shards(tier, seed):
     chunks = 1 if tier == 'quick' else 8
     out += [('sweep', i, c, chunks) for i in range(n) for c in range(chunks)]
     out += [('mut', i) for i in range(n)]
+    # two-step histories in ONE process: kind A, then kind B, then A again, for every ordered pair of kinds
+    out += [('seq', i) for i in range(n)]
     # heaviest (longest strings) first
     rows = impl_rows()
     out.sort(key=lambda s: (0 if s[0] == 'mut' else 1, -rows[s[1]][1] if len(s) > 1 else 0))
@@ -327,6 +329,23 @@ def run_shard(spec, tier):
                         r.viol(d, last, detail)
                     if r.first_case is None:
                         r.sample(last)
+    elif spec[0] == 'seq':
+        _, i = spec
+        a = rows[i]
+        ra = ref_row_for(a[2]) or a
+        for j, b in enumerate(rows):
+            rb = ref_row_for(b[2]) or b
+            for fill in (0x00, 0xFF):
+                for row, ref, tag in ((a, ra, 'first'), (b, rb, 'second'), (a, ra, 'first again')):
+                    payload = bytes([fill]) * ref[3]
+                    r.ev()
+                    lab, vs = check_payload(row, payload)
+                    r.out(f'seq|{lab}')
+                    last = {'k': 'payload', 'i': rows.index(row), 'payload': payload}
+                    for d, detail in vs:
+                        r.viol(d + ' [after another kind was encoded/decoded in the same process]', dict(last, seq=[i, j]), f'{tag} of ({a[0]}/{a[3]}, {b[0]}/{b[3]}): {detail}')
+            if a[0] == b[0] and i != j:
+                r.nt(('seq', i, j))
     elif spec[0] == 'mut':
         _, i = spec
         row = rows[i]
@@ -353,6 +372,14 @@ def replay(case):
         return check_row(rows[case['i']])[1]
     if k == 'pair':
         return check_pair(rows[case['i']], rows[case['j']])
+    if k == 'payload' and case.get('seq'):
+        out = []
+        i, j = case['seq']
+        for row in (rows[i], rows[j], rows[i]):   # the recorded two-step history, replayed in this (fresh) process
+            ref = ref_row_for(row[2]) or row
+            for fill in (0x00, 0xFF):
+                out += check_payload(row, bytes([fill]) * ref[3])[1]
+        return out
     if k == 'payload':
         return check_payload(rows[case['i']], case['payload'])[1]
     if k == 'string':
